@@ -292,14 +292,50 @@ Proof.
   injection H as <-. reflexivity.
 Qed.
 
+(* the shape of what the iteration engine returns for a join of two of its relations, whatever the operands: the join
+   node, one of the operands (join identity on the other side), or that operand under a selection *)
+Lemma select_rows_iter_shape env cf p x s :
+  kiter x → shape_ok env x → select_rows cf p x = Ok s → kiter s ∧ shape_ok env s.
+Proof.
+  intros Hk Hs H. unfold select_rows in H. unfold kiter in Hk.
+  destruct (as_trivial p) as [[|]|]; [injection H as <-; auto| |].
+  all: destruct (begin_apply _ _) as [o|]; cbn [rbind] in H; [|discriminate].
+  all: rewrite Hk in H; eapply finish_apply_shape; eauto.
+Qed.
+
+Lemma append_join_e_iter_shape env j f t s :
+  ekind_of (engine_of t) = KIter → engine_of f = engine_of t → shape_ok env t → shape_ok env f →
+  j_max j = Some (j_min j) → j_min j ⊆ columns t → j_min j ⊆ columns f →
+  cols_p (j_pred j) ⊆ columns t ∪ columns f →
+  append_unary_e (RJoin j f false) t = Ok s → kiter s ∧ shape_ok env s.
+Proof.
+  intros Ek He St Sf Hmax Hct Hcf Hp H.
+  assert (Kt : kiter t) by exact Ek. assert (Kf : kiter f) by (unfold kiter; rewrite He; exact Ek).
+  unfold append_unary_e in H. rewrite Ek in H.
+  unfold join_apply, join_begin in H.
+  rewrite (bool_decide_eq_true_2 _ Hp) in H. cbn [negb] in H.
+  unfold j_resolved in H. rewrite (bool_decide_eq_true_2 _ Hmax) in H.
+  rewrite (bool_decide_eq_true_2 _ Hct), (bool_decide_eq_true_2 _ Hcf) in H. cbn [negb rbind] in H.
+  destruct (bool_decide (as_trivial (j_pred j) = Some true) && is_join_identity t).
+  { cbn [rbind] in H. unfold append_binary_e in H. rewrite Ek in H. injection H as <-. auto. }
+  destruct (bool_decide (as_trivial (j_pred j) = Some true) && is_join_identity f).
+  { cbn [rbind] in H. unfold append_binary_e in H. rewrite Ek in H. injection H as <-. auto. }
+  cbn [rbind] in H. unfold append_binary_e in H. rewrite Ek in H. unfold join_finish in H.
+  destruct (is_join_identity t); [exact (select_rows_iter_shape env conform (j_pred j) f s Kf Sf H)|].
+  destruct (is_join_identity f); [exact (select_rows_iter_shape env conform (j_pred j) t s Kt St H)|].
+  destruct (negb (engine_eqb (engine_of t) (engine_of f))); [discriminate|].
+  destruct (negb (supp_p _ (j_pred j))); [discriminate|].
+  injection H as <-. simpl. auto.
+Qed.
+
 Lemma same_engine_join env pr f t jb jt t1 :
   wf_tree t → env_ok env t → shape_ok env t → wf_tree f → env_ok env f → shape_ok env f →
-  engine_of f = engine_of t → columns t ≠ ∅ → columns f ≠ ∅ →
+  engine_of f = engine_of t →
   apply_full (RJoin (JSpec pr ∅ None) f false) t (Opts None jb jt false) = Ok t1 →
   sem_tree env t1 = sem_join (natural_common (columns t) (columns f)) pr (sem_tree env t) (sem_tree env f) ∧
   columns t1 = columns t ∪ columns f ∧ wf_tree t1 ∧ env_ok env t1 ∧ shape_ok env t1 ∧ engine_of t1 = engine_of t.
 Proof.
-  intros Wt Et St Wf Ef Sf He Nt Nf H.
+  intros Wt Et St Wf Ef Sf He H.
   set (c := natural_common (columns t) (columns f)) in *.
   unfold apply_full, apply_with, req_begin, common_columns, j_resolved in H. cbn [j_max j_min j_pred] in H.
   rewrite bool_decide_eq_false_2 in H by discriminate.
@@ -316,11 +352,11 @@ Proof.
   assert (Hp : cols_p (j_pred j) ⊆ columns t ∪ columns f) by (apply subset_union_diff; unfold pjoin_required in Ereq; set_solver).
   cbn [o_pref default from_option id] in H.
   rewrite He, engine_eqb_refl in H.
-  destruct (append_join_e_sound env j f t t1 Wt Et (shape_tree_ok env t St) Wf Ef (shape_tree_ok env f Sf) He Hmax Hct Hcf Hp Nt Nf H)
+  destruct (append_join_e_sound env j f t t1 Wt Et (shape_tree_ok env t St) Wf Ef (shape_tree_ok env f Sf) He Hmax Hct Hcf Hp H)
     as (S1 & S2 & S3 & S4 & S5 & S6).
   repeat split; auto.
   destruct (ekind_of (engine_of t)) eqn:Ek.
-  - rewrite (append_join_e_iter j f t t1 Ek He Hmax Hct Hcf Hp Nt Nf H). simpl. unfold kiter. rewrite He. auto.
+  - apply (append_join_e_iter_shape env j f t t1 Ek He St Sf Hmax Hct Hcf Hp H).
   - apply shape_of_good; [rewrite S6; exact Ek|]. unfold tree_ok in S5. rewrite S6, Ek in S5. exact S5.
 Qed.
 
@@ -373,7 +409,7 @@ Proof.
       destruct (append_unary_e (RJoin j f false) t1) as [a|] eqn:Ea; cbn [rbind] in H; [|discriminate].
       injection H as <- _.
       assert (Hct : j_min j ⊆ columns t1) by (unfold pjoin_required in Hreq; set_solver).
-      destruct (append_join_e_sound env j f t1 a Hwf1 Henv (shape_tree_ok env t1 Hs1) Wf Ef (shape_tree_ok env f Sf) (eq_sym Ee) Hmax Hct Hcf Hp Nt Nf Ea)
+      destruct (append_join_e_sound env j f t1 a Hwf1 Henv (shape_tree_ok env t1 Hs1) Wf Ef (shape_tree_ok env f Sf) (eq_sym Ee) Hmax Hct Hcf Hp Ea)
         as (_ & _ & _ & _ & S5 & S6).
       split; [exact Hkd|]. simpl. split; [exact Hkd|].
       destruct (ekind_of (engine_of t1)) eqn:Ek.
@@ -474,7 +510,8 @@ Section MixedPrograms.
   (* what Relation.join needs of its operands *)
   Definition join_scope (jt : bool) (tl tr : tree) : Prop :=
     engine_of tr = engine_of tl ∨
-    (jt = false ∧ kiter tl ∧ spine_cons env (natural_common (columns tl) (columns tr)) (sem_tree env tr) tl).
+    (jt = false ∧ kiter tl ∧ columns tl ≠ ∅ ∧ columns tr ≠ ∅ ∧
+     spine_cons env (natural_common (columns tl) (columns tr)) (sem_tree env tr) tl).
 
   (* Programs over engines of both kinds.  The side conditions speak about the relation a call is applied to (the tree
      the sub-program builds); everything outside them is covered call by call by apply_full_sound /
@@ -490,7 +527,7 @@ Section MixedPrograms.
     | MpItem _ _ _ p' | MpMat _ p' => mixprog_ok p'
     | MpChain l r => mixprog_ok l ∧ mixprog_ok r
     | MpJoin _ _ jt l r =>
-        mprog_cols l ≠ ∅ ∧ mprog_cols r ≠ ∅ ∧ mixprog_ok l ∧ mixprog_ok r ∧
+        mixprog_ok l ∧ mixprog_ok r ∧
         ∀ tl tr, build_multi l = Ok tl → build_multi r = Ok tr → join_scope jt tl tr
     | MpXfer d p' => mixprog_ok p' ∧ ∀ t0, build_multi p' = Ok t0 → xfer_simplify d t0 = None
     end.
@@ -589,14 +626,13 @@ Section MixedPrograms.
         unfold mbuilt. simpl. rewrite S, Sl, Sr, C, Cl. repeat split; auto.
         apply shape_of_good; [rewrite E; exact Ek|exact G].
     - (* join *)
-      destruct Hok as (Nl & Nr & Hl & Hr & Hjs).
+      destruct Hok as (Hl & Hr & Hjs).
       destruct (build_multi l) as [tl|] eqn:El; cbn [rbind] in H; [|discriminate].
       destruct (build_multi r) as [tr|] eqn:Er; cbn [rbind] in H; [|discriminate].
       destruct (IHl tl Hl eq_refl) as (Sl & Wl & El0 & Cl & Shl). destruct (IHr tr Hr eq_refl) as (Sr & Wr & Er0 & Cr & Shr).
-      assert (Ntl : columns tl ≠ ∅) by (rewrite Cl; exact Nl). assert (Ntr : columns tr ≠ ∅) by (rewrite Cr; exact Nr).
       assert (Hres : sem_tree env t = sem_join (natural_common (columns tl) (columns tr)) (default (PLit true) pr) (sem_tree env tl) (sem_tree env tr) ∧
                      columns t = columns tl ∪ columns tr ∧ wf_tree t ∧ env_ok env t ∧ shape_ok env t ∧ engine_of t = engine_of tl).
-      { destruct (Hjs tl tr eq_refl eq_refl) as [He|(-> & Hk & Hcons)].
+      { destruct (Hjs tl tr eq_refl eq_refl) as [He|(-> & Hk & Ntl & Ntr & Hcons)].
         - apply (same_engine_join env (default (PLit true) pr) tr tl jb jt t); auto.
         - apply (cross_engine_join env (default (PLit true) pr) tr tl jb t); auto. }
       destruct Hres as (S1 & S2 & S3 & S4 & S5 & S6).
